@@ -372,19 +372,24 @@ def _only_consumer_is_reindex(ctx, f, actual):
         return False
     uses = [n for n in ast.walk(f.node) if isinstance(n, ast.Name)
             and n.id == name and isinstance(n.ctx, ast.Load)]
+    parents = {}
+    for n in ast.walk(f.node):
+        for ch in ast.iter_child_nodes(n):
+            parents[id(ch)] = n
+    prog = ctx.prog
     ok = True
     for u in uses:
-        # allowed: argument of the get_rows task, or the zip feeding the
-        # reindex task
-        par = None
-        for n in ast.walk(f.node):
-            for ch in ast.iter_child_nodes(n):
-                if ch is u:
-                    par = n
-        txt = ast.unparse(par) if par is not None else ""
-        if "get_rows_from_dataframe" in txt or txt.startswith("zip("):
-            continue
-        if isinstance(par, ast.Call) and "delayed" in ast.unparse(par.func):
+        # allowed: an argument (positional or keyword) of the get_rows
+        # task, or of the zip that feeds the reindexing task
+        call = parents.get(id(u))
+        while call is not None and not isinstance(call, ast.Call):
+            if isinstance(call, (ast.stmt, ast.comprehension)):
+                call = None
+                break
+            call = parents.get(id(call))
+        if call is not None and (
+                delayed_task_of(prog, f, call, "get_rows_from_dataframe")
+                or callee_is(prog, f, call, "builtins.zip", "zip")):
             continue
         ok = False
     rets = [n for n in ast.walk(f.node) if isinstance(n, ast.Return)]
